@@ -1,4 +1,4 @@
-\* trace validation: every E02 invariant is evaluated on the real states (RAAUX = FALSE)
+\* trace validation; the E02 invariants are evaluated on the real states by Monitor (reported, not fatal) (RAAUX = FALSE)
 CONSTANTS
   Snaps <- MCSnaps
   Names <- MCNames3
@@ -9,9 +9,9 @@ CONSTANTS
   FaultModes <- MCFaults
   InitInst <- MCNone
   RAAUX = FALSE
+  LateRemoveFaults = TRUE
   MaxOps = 0
 INIT TInit
 NEXT TNext
 CHECK_DEADLOCK FALSE
-INVARIANTS TypeOK SysMatchesState NoPendingWhenSettled NoDoubleAlias NoNamespaceClash RefreshKeepsManualFollowsDecl FailedChangeRestores
 POSTCONDITION Accepted
